@@ -389,6 +389,34 @@ def documented_count(space, req) -> tuple[str, int | None]:
     return "none", None
 
 
+def valid_request(space, req) -> bool:
+    """The request is inside the property's quantifier *and* inside what the third-party library supports
+    (re-checked on every neighbour / shrunk case so that the search cannot leave the scope)."""
+    algo, n, opts = req["algo"], req["n"], req["opts"]
+    d = space_dim(space)
+    if d < ALGOS[algo].get("min_dim", 1) or d < 1 or n < 1:
+        return False
+    if algo == "PYDOE_LHS":
+        crit = opts.get("criterion")
+        if crit in ("maximin", "m", "centermaximin", "cm") and n < 2:
+            return False
+        if crit in ("correlation", "corr") and (n < 3 or d < 2):
+            return False
+    if algo == "CustomDOE" and any(len(row) != d for row in opts.get("samples", [[]])):
+        return False
+    if algo == "OATDOE" and len(opts.get("initial_point", [])) != d:
+        return False
+    if isinstance(opts.get("levels"), list) and algo in ("OT_FULLFACT", "PYDOE_FULLFACT") and len(opts["levels"]) != d:
+        return False
+    if isinstance(opts.get("centers"), list) and len(opts["centers"]) != d:
+        return False
+    if algo == "DiagonalDOE":
+        names = {v["name"] for v in space["vars"]} | {str(i) for i in range(d)}
+        if any(r not in names for r in opts.get("reverse", [])):
+            return False
+    return True
+
+
 def count_key(space, req) -> str:
     """Classification of a count failure.  One class is a recorded finding of the pinned tree:
     OT_SOBOL_INDICES with second-order indices in dimension 1 (sub-sample size computed with the block
@@ -507,8 +535,9 @@ def image_ok(comp, t: Fraction, x: Fraction) -> bool:
         r = lo if lo % 2 == 0 else lo + 1
     if x == r:
         return True
-    # float evaluation of y may fall on the other side of a tie
-    return abs(frac - Fraction(1, 2)) <= GUARD * max(1, abs(y)) and x in (lo, lo + 1)
+    # float evaluation of y may fall on the other side of a *near* tie; an exact tie (exact in floats too, the
+    # operands being small dyadic numbers) must be rounded half to even
+    return frac != Fraction(1, 2) and abs(frac - Fraction(1, 2)) <= GUARD * max(1, abs(y)) and x in (lo, lo + 1)
 
 
 def oracle(space, req, obs) -> list[tuple[str, str]]:
@@ -517,6 +546,8 @@ def oracle(space, req, obs) -> list[tuple[str, str]]:
     comps = flat(space)
     d = len(comps)
     rule, cnt = documented_count(space, req)
+    if not valid_request(space, req):
+        return []
     if obs["exc"] is not None or obs["x1"] is None:
         if cnt is not None and rule != "none":
             bad.append(("valid-request-rejected", f"{algo}: a valid request raised {obs['exc_msg']}"))
@@ -665,8 +696,8 @@ def close_matrix(space, model, real, unit) -> str | None:
             if t is not None:
                 y = l + t * (u - l)
                 frac = y - math.floor(y)
-                if abs(frac - Fraction(1, 2)) <= GUARD * max(1, abs(y)) and abs(m - r) == 1:
-                    continue
+                if frac != Fraction(1, 2) and abs(frac - Fraction(1, 2)) <= GUARD * max(1, abs(y)) and abs(m - r) == 1:
+                    continue  # near tie decided differently by the float evaluation (never an exact tie)
             return f"row {i} col {j} (integer): real {float(r)!r} model {float(m)!r}"
     return None
 
@@ -703,10 +734,17 @@ def case_lines(space, req, obs) -> list[tuple[str, str, Any]]:
     if obs.get("exec_exc") is None and "xs" in obs and obs["xs"].ndim == 2:
         rows = custom_rows(req) if is_custom else fmat(obs["us"])
         lines.append(("exec", doe_line(space, req, "exec", rows), {"x": obs["xs"], "u": None if is_custom else rows, "us": obs["us"], "int": obs["int_after_exec"], "lseed": obs["lseed_after_exec"], "db": obs["db"]}))
+        if obs["xs"].shape[0]:
+            lines.append(("db", "firstocc | " + rows_str(fmat(obs["xs"])), {"db": obs["db"]}))
     return lines
 
 
 def compare_line(space, tag, ans: str, payload) -> str | None:
+    if tag == "db":
+        dbr = [[F(t) for t in k] for k in payload["db"]]
+        if ans == "bad-op" or parse_matrix(ans) != dbr:
+            return f"exec: database keys ({len(dbr)}) are not the first occurrences of lib.samples in generation order (model: {ans[:120]})"
+        return None
     a = parse_answer(ans)
     if a.get("res") != "ok":
         return f"{tag}: model answers {ans[:80]} for a successful call"
@@ -730,15 +768,8 @@ def compare_line(space, tag, ans: str, payload) -> str | None:
         msg = close_matrix(space, parse_matrix(a["S"]), real, payload.get("u"))
         if msg:
             return f"exec: lib.samples differ from the model: {msg}"
-        dbm = parse_matrix(a["db"])
-        dbr = [[F(t) for t in k] for k in payload["db"]]
-        uniq = []
-        for row in real:
-            if row not in uniq:
-                uniq.append(row)
-        # the model's keys are its own samples; compare through the positions of first occurrences
-        if len(dbm) != len(dbr) or dbr != uniq:
-            return f"exec: database has {len(dbr)} keys, model {len(dbm)} (first occurrences of the samples)"
+        if parse_matrix(a["S"]) == real and parse_matrix(a["db"]) != [[F(t) for t in k] for k in payload["db"]]:
+            return "exec: database keys differ from the model's (first occurrences of the samples)"
     return None
 
 
@@ -1281,6 +1312,27 @@ def probe_stream(ctx, res: Result) -> None:
 # --------------------------------------------------------------------------- corpus / run / replay
 
 
+def guarded(stream, ctx, res: Result) -> None:
+    """Run a stream; an exception raised *inside the implementation* on an input the stream considers valid is a
+    finding (the model and the oracle expect an answer), an exception of the harness itself is re-raised (exit 2)."""
+    import traceback
+
+    try:
+        stream(ctx, res)
+    except Exception as e:  # noqa: BLE001
+        frames = traceback.extract_tb(e.__traceback__)
+        in_impl = any("/gemseo/" in f.filename for f in frames)
+        if not in_impl:
+            raise
+        where = next((f"{f.filename.split('/gemseo/')[-1]}:{f.lineno}" for f in reversed(frames) if "/gemseo/" in f.filename), "?")
+        res.violate("correspondence", f"implementation-raises:{stream.__name__}",
+                    f"the implementation raised {e!r} at {where} on an input of the stream `{stream.__name__}` "
+                    "for which the model returns an answer",
+                    {"stream": stream.__name__, "exception": repr(e), "where": where,
+                     "traceback": traceback.format_exc()[-2500:],
+                     "correspondence": "the Lean model is total on this input; the implementation is not"})
+
+
 def load_corpus() -> list[dict[str, Any]]:
     d = common.CORPUS_DIR / PID
     out = []
@@ -1313,13 +1365,9 @@ def run(ctx) -> Result:
         if "space" in c and "request" in c:
             check_batch(res, [(c["space"], c["request"], c.get("stream", "corpus"))], c.get("in_scope", True))
             res.count("corpus")
-    view_stream(ctx, res)
-    seeder_stream(ctx, res)
-    count_stream(ctx, res)
-    own_designs_stream(ctx, res)
-    library_seed_stream(ctx, res)
-    probe_stream(ctx, res)
-    product_stream(ctx, res)
+    for stream in (view_stream, seeder_stream, count_stream, own_designs_stream, library_seed_stream, probe_stream,
+                   product_stream):
+        guarded(stream, ctx, res)
     return res
 
 
